@@ -125,7 +125,7 @@ def standard_main(prop, prop_files, tier, seed, cases, rule, what, metamorphic=N
         for s in c["shapes"]:
             for comp in s["comps"]:
                 kinds[comp[0]] = kinds.get(comp[0], 0) + 1
-        k = ",".join("%s=%s" % kv for kv in sorted(c["opts"].items()) if kv[0] != "focus_nodes") or "default"
+        k = ",".join("%s=%s" % (kv[0], kv[1] if not hasattr(kv[1], "namespace_manager") else "<graph>") for kv in sorted(c["opts"].items(), key=lambda kv: kv[0]) if kv[0] != "focus_nodes") or "default"
         optk[k] = optk.get(k, 0) + 1
     nontrivial = set()
     for i, o in enumerate(obs):
